@@ -122,7 +122,14 @@ def _post_moments(res, exc, args, kwargs):
         ctx.fail("no-exception", subj, f"raised:{type(exc).__name__}", detail={"error": str(exc)[:300], "order": int(L), "ncent": len(cent), "N": len(pts)})
         return
     L = int(L)
-    S, A, E, orders = c14ref.ref_moments(t, L, pts, w, f, cent)
+    cplx = np.iscomplexobj(f)
+    if cplx:  # complex function values: quadrature is linear, decide real and imaginary parts separately
+        S1, A1, E1, orders = c14ref.ref_moments(t, L, pts, w, np.ascontiguousarray(f.real), cent)
+        S2, A2, E2, _ = c14ref.ref_moments(t, L, pts, w, np.ascontiguousarray(f.imag), cent)
+        S, A, E = S1 + 1j * S2, A1 + A2, E1 + E2
+        ctx.count("moments:complex function values")
+    else:
+        S, A, E, orders = c14ref.ref_moments(t, L, pts, w, f, cent)
     A = A + FLOOR * E  # conditioning floor for rows that (nearly) vanish by symmetry, see FLOOR
     A = A + np.where(A > 0, UNDERFLOW, 0.0)  # subnormal products carry fewer digits: absolute errors below 1e-300 are not counted
     if a["return_orders"]:
@@ -163,17 +170,17 @@ def _post_moments(res, exc, args, kwargs):
         # workload announced a cone narrower than 0.1 rad about the polar axis: the arccos route of the library loses digits
         # relative to the row (conditioning, recorded) - decided only against the envelope of the row
         with np.errstate(all="ignore"):
-            diff = np.abs(vals.astype(np.longdouble) - S)
+            diff = np.abs(vals.astype(np.clongdouble if (cplx or np.iscomplexobj(vals)) else np.longdouble) - S)
             envrel = float(np.max(np.where(E > 0, diff / np.where(E > 0, E, 1), np.where(diff == 0, 0.0, np.inf))))
             rowrel = float(np.max(np.where(A > 0, diff / np.where(A > 0, A, 1), 0.0)))
-        ctx.check("narrow-cone-within-envelope", subj, envrel if not np.isnan(np.asarray(vals, dtype=float)).any() else float("nan"), 1e-6, sig="envelope-relative", detail={"cone": _state["narrow"], "L": L})
+        ctx.check("narrow-cone-within-envelope", subj, envrel if not np.isnan(vals).any() else float("nan"), 1e-6, sig="envelope-relative", detail={"cone": _state["narrow"], "L": L})
         if rowrel > TOL:
             ctx.observe("pure moments in a narrow cone about the polar axis lose digits relative to the row (arccos polar angle)", cone=_state["narrow"], row_relative_error=rowrel, envelope_relative_error=envrel, type=t, L=L)
         return
     with np.errstate(all="ignore"):
-        diff = np.abs(vals.astype(np.longdouble) - S)
+        diff = np.abs(vals.astype(np.clongdouble if (cplx or np.iscomplexobj(vals)) else np.longdouble) - S)
         rel = np.where(A > 0, diff / np.where(A > 0, A, 1), np.where(diff == 0, 0.0, np.inf))
-        rel = np.where(np.isnan(np.asarray(vals, dtype=float)), np.nan, rel)
+        rel = np.where(np.isnan(vals), np.nan, rel)
     worst = float(np.nanmax(rel)) if not np.isnan(rel).all() else float("nan")
     if np.isnan(rel).any():
         worst = float("nan")
@@ -181,8 +188,8 @@ def _post_moments(res, exc, args, kwargs):
     if not worst <= TOL:
         bad = np.argwhere(~(rel <= TOL))
         i, c = int(bad[0][0]), int(bad[0][1])
-        sig = f"first-bad-row={tuple(orders[i])}"
-        detail = {"row": i, "order": list(orders[i]), "centre": c, "got": float(vals[i, c]), "want": float(S[i, c]), "scale": float(A[i, c]), "nbad": int(len(bad)), "N": len(pts), "L": L}
+        sig = f"first-bad-row={tuple(orders[i])}" + (";complex-f" if cplx else "")
+        detail = {"row": i, "order": list(orders[i]), "centre": c, "got": repr(complex(vals[i, c])) if cplx else float(vals[i, c]), "want": repr(complex(S[i, c])) if cplx else float(S[i, c]), "scale": float(A[i, c]), "nbad": int(len(bad)), "N": len(pts), "L": L}
     ctx.check("entry-equals-quadrature", subj, worst, TOL, sig=sig, detail=detail)
     ctx.count(f"moments-decided:{t}:{dim}D")
     ctx.count(f"moments-decided:order-type:{type(a['orders']).__name__}")
@@ -237,6 +244,7 @@ def _post_dipole(res, exc, args, kwargs):
         ctx.count("dipole:inadmissible-call")
         return
     subj = f"dipole_moment_of_molecule[{type(g).__name__}]"
+    _check_mass_table(ctx, gu)
     if exc is not None:
         ctx.fail("dipole-nuclear-minus-electronic", subj, f"raised:{type(exc).__name__}", detail={"error": str(exc)[:300]})
         return
@@ -266,6 +274,38 @@ def _post_dipole(res, exc, args, kwargs):
             if float(np.max(np.abs(got.astype(ld) - alt) / np.where(scale > 0, scale, 1))) <= TOL:
                 sig = "equals:" + name
     ctx.check("dipole-nuclear-minus-electronic", subj, worst, TOL, sig=sig, detail={"got": got.tolist(), "want": [float(v) for v in want], "natoms": len(charges)})
+
+
+# Mass number of the most abundant (for Tc, Pm: the longest-lived) isotope of each element, typed from general knowledge
+# (independent of the library). Dy: 164Dy (28.3 %) and 162Dy (25.5 %) are both accepted.
+MOST_ABUNDANT_A = {1: {1}, 2: {4}, 3: {7}, 4: {9}, 5: {11}, 6: {12}, 7: {14}, 8: {16}, 9: {19}, 10: {20}, 11: {23}, 12: {24}, 13: {27},
+                   14: {28}, 15: {31}, 16: {32}, 17: {35}, 18: {40}, 19: {39}, 20: {40}, 21: {45}, 22: {48}, 23: {51}, 24: {52}, 25: {55},
+                   26: {56}, 27: {59}, 28: {58}, 29: {63}, 30: {64}, 31: {69}, 32: {74}, 33: {75}, 34: {80}, 35: {79}, 36: {84}, 37: {85},
+                   38: {88}, 39: {89}, 40: {90}, 41: {93}, 42: {98}, 43: {98}, 44: {102}, 45: {103}, 46: {106}, 47: {107}, 48: {114},
+                   49: {115}, 50: {120}, 51: {121}, 52: {130}, 53: {127}, 54: {132}, 55: {133}, 56: {138}, 57: {139}, 58: {140}, 59: {141},
+                   60: {142}, 61: {145}, 62: {152}, 63: {153}, 64: {158}, 65: {159}, 66: {164, 162}, 67: {165}, 68: {166}, 69: {169},
+                   70: {174}, 71: {175}, 72: {180}, 73: {181}, 74: {184}, 75: {187}, 76: {192}, 77: {193}, 78: {195}, 79: {197}, 80: {202},
+                   81: {205}, 82: {208}}  # fmt: skip
+
+
+def _check_mass_table(ctx, gu):
+    """The centre of mass is only right if the mass table is: every entry must be the mass of the element's most abundant
+    isotope (|m - A| < 0.12 u, the largest mass defect in this range is 0.098 u) and no two elements may share a value."""
+    if _state.get("mass-table-checked"):
+        return
+    _state["mass-table-checked"] = True
+    table = dict(gu.isotopic_masses)
+    seen = {}
+    for z, m in sorted(table.items()):
+        if int(z) not in MOST_ABUNDANT_A:
+            ctx.count("mass-table:element-without-reference")
+            continue
+        a = int(round(float(m)))
+        ok = a in MOST_ABUNDANT_A[int(z)] and abs(float(m) - a) < 0.12
+        ctx.check("dipole-centre-of-mass-table", f"isotopic_masses[Z={int(z)}]", ok, sig="not-the-most-abundant-isotope" if a not in MOST_ABUNDANT_A[int(z)] else "not-an-isotope-mass", detail={"mass": float(m), "expected_A": sorted(MOST_ABUNDANT_A[int(z)])})
+        if float(m) in seen:
+            ctx.fail("dipole-centre-of-mass-table", f"isotopic_masses[Z={int(z)}]", "duplicate-of-another-element", detail={"mass": float(m), "other": seen[float(m)]})
+        seen[float(m)] = int(z)
 
 
 def setup(ctx):
@@ -462,6 +502,9 @@ def run_case(ctx, family, params):
         # 1-D grids: flat (N,) points (the library's own 1-D layout) for every other case, (N,1) otherwise
         g = Grid(pts[:, 0].copy() if (dim == 1 and (L + m + k) % 2 == 0) else pts, _random_weights(rng, n))
         f = _random_f(rng, pts, scale)
+        if (L + 2 * m + k) % 6 == 0:  # complex-valued function (e.g. a density times a plane wave)
+            f = f * np.exp(1j * (pts @ rng.normal(size=dim)) / scale) + 0.3j * _random_f(rng, pts, scale)
+            ctx.case_note("complex_f", True)
         c = _centres(rng, pts, m, scale)
         sel = L + m + k + dim
         _call_moments(ctx, g, _order_arg(L, sel), c, f, t, sel // 3)
